@@ -39,6 +39,8 @@ pub mod c12_lease;
 pub mod c13_wakeup;
 pub mod c14_msg;
 pub mod c15_discovery_wire;
+#[cfg(feature = "security")]
+pub mod c16_crypto;
 pub mod c20_waitack;
 
 use std::fmt::Write as _;
@@ -169,6 +171,8 @@ pub fn registry() -> Vec<Property> {
   v.push(c13_wakeup::property());
   v.push(c14_msg::property());
   v.push(c15_discovery_wire::property());
+  #[cfg(feature = "security")]
+  v.push(c16_crypto::property());
   v.push(c20_waitack::property());
   v
 }
